@@ -417,6 +417,15 @@ def gen_overrides(g, r):
     for a in g.arcs:
         if a["type_"] == "Arc" and r.random() < 0.1:
             out.append({"arc": a["name"], "values": {"capacity": F(r.choice([3, 9]))}})
+    # an overrides entry names a type; the library ignores it, so an entry that names another arc class than the arc's own
+    # must change nothing about what the arc lets through (a stream of its own)
+    rt = random.Random(r.random())
+    for o in out:
+        if "arc" in o and rt.random() < 0.5:
+            o["type_"] = rt.choice(["PullArc", "PushArc", "Arc"])
+    for a in g.arcs:
+        if a["type_"] in ("Arc", "PullArc") and rt.random() < 0.06:
+            out.append({"arc": a["name"], "type_": rt.choice(["PullArc", "PushArc"]), "values": {"preference": F(1)}})
     return out
 
 
@@ -624,12 +633,19 @@ def build(cfg, mode="exact", orchestration=None):
     m.add_nodes(nodes)
     m.add_arcs(arcs)
     m.dates = [pd.Timestamp(d) for d in cfg["dates"]]
+    filed = {n["name"]: n["type_"] for n in cfg["nodes"]}
     for o in conv(copy.deepcopy(cfg.get("overrides") or []), mode):
         tgt = m.arcs[o["arc"]] if "arc" in o else m.nodes[o["node"]]
         if o.get("surface") is not None:
             tgt = tgt.surfaces[o["surface"]]
         try:
-            tgt.apply_overrides(dict(o["values"]))
+            if o.get("surface") is not None:
+                tgt.apply_overrides(dict(o["values"]))
+            elif "arc" in o:
+                # through the model, as an `overrides:` block does; the entry names a type (the library reads and ignores it)
+                m.add_overrides({"arcs": {o["arc"]: dict(name=o["arc"], type_=o.get("type_", type(tgt).__name__), **o["values"])}})
+            else:
+                m.add_overrides({"nodes": {o["node"]: dict(name=o["node"], type_=filed[o["node"]], **o["values"])}})
         except RuntimeError as ex:
             # recorded known finding (C15 node-data-input-dict-runtimeerror): a node holding input data raises at the very
             # end of apply_overrides, after every value has been set
